@@ -10,8 +10,10 @@ for sid in ids:
     meta = json.load(open(f"{d}/meta.json"))
     props = [meta["property"]] + meta.get("also_run", [])
     a = subprocess.run(f"git -C /repo apply {d}/patch.diff", shell=True, capture_output=True, text=True)
-    if a.returncode:
-        print(sid, "patch does not apply", a.stderr); continue
+    if a.returncode:   # the tree has moved on (fix: commits): 3-way merge of the seeded change onto the current HEAD
+        a = subprocess.run(f"git -C /repo apply --3way {d}/patch.diff && git -C /repo reset -q", shell=True, capture_output=True, text=True)
+        if a.returncode or "<<<<<<<" in subprocess.run("git -C /repo diff", shell=True, capture_output=True, text=True).stdout:
+            print(sid, "patch does not apply (even 3-way)", a.stderr[-200:]); subprocess.run("git -C /repo reset -q --hard HEAD", shell=True); continue
     try:
         for prop in props:
             t = time.time()
@@ -20,5 +22,5 @@ for sid in ids:
             print(f"{sid:12s} {prop} exit={r.returncode} {'CAUGHT' if r.returncode == 1 and v else 'MISSED'} {time.time()-t:.0f}s {v[0] if v else r.stderr[-200:]}")
             res[sid + ":" + prop] = (r.returncode, v[:2])
     finally:
-        subprocess.run("git -C /repo checkout -- . && find /repo -name __pycache__ -prune -exec rm -rf {} +", shell=True)
+        subprocess.run("git -C /repo reset -q --hard HEAD && find /repo -name __pycache__ -prune -exec rm -rf {} +", shell=True)
 json.dump(res, open("/tmp/seeded_results.json", "w"), indent=1)
